@@ -6,6 +6,7 @@ import (
 	"fmt"
 	"runtime"
 	"sync"
+	"sync/atomic"
 	"time"
 
 	"github.com/bradenaw/juniper/iterator"
@@ -300,6 +301,9 @@ func overdueCancel(c *vkit.Case) {
 		} else {
 			ctx, cancel = context.WithTimeout(context.Background(), time.Duration(rnd.Intn(20000))*time.Nanosecond)
 		}
+		if a%2 == 1 {
+			ctx = vkit.ByValue(ctx)
+		}
 		batch, err := b.Next(ctx)
 		cancel()
 		if err == nil {
@@ -372,5 +376,68 @@ func heldBack(c *vkit.Case) {
 		c.Violation("held-back", fmt.Sprintf("held-back: Batch(maxWait %s): a consumer that arrives when the pending item is 3/4 maxWait old was handed the under-filled batch only after %v (rounds 0..%d; due after about %s), in every round after the first", maxWait, lates, rounds-1, maxWait/4), nil)
 	} else if late > 0 {
 		r.Count("held-back", "rounds delivered later than due + maxWait/2 (load; not judged)", late)
+	}
+}
+
+// deafSource never ends, never looks at its context and hands out items at once, until killed.
+type deafSource struct {
+	spin   int // latency per item in microseconds, so that the consumer of the items is parked again by the time the next one comes
+	pulls  atomic.Int64
+	killed atomic.Bool
+	closed atomic.Int64
+}
+
+func (s *deafSource) Next(ctx context.Context) (int, error) {
+	if s.killed.Load() {
+		return 0, errPoison
+	}
+	if s.spin > 0 {
+		time.Sleep(time.Duration(s.spin) * time.Microsecond)
+	}
+	return int(s.pulls.Add(1)), nil
+}
+func (s *deafSource) Close() { s.closed.Add(1) }
+
+// deafClose: an endless source that ignores its context, a batch that never fills, no consumer
+// (so no timer is pending): Close must still return, having stopped the background work. A Close
+// that is still blocked after 15 s (it normally takes microseconds) while the source keeps being
+// pulled (>= 1000 further items in 2 s) is a violation; the source's kill switch then ends the run.
+func deafClose(c *vkit.Case) {
+	r := c.R
+	src := &deafSource{spin: []int{0, 20, 100, 500, 500}[c.Index/2%5]}
+	var b stream.Stream[[]int]
+	if c.Index%2 == 0 {
+		b = stream.BatchFunc[int](src, time.Hour, func(x []int) bool { return false })
+	} else {
+		b = stream.Batch[int](src, time.Hour, 1<<30)
+	}
+	for src.pulls.Load() < int64(20+c.Rand.Intn(200)) {
+		time.Sleep(50 * time.Microsecond)
+	}
+	closed := make(chan struct{})
+	go func() { defer close(closed); b.Close() }()
+	r.Eval(1)
+	r.Count("deaf-close", "rounds", 1)
+	select {
+	case <-closed:
+	case <-time.After(15 * time.Second):
+		p1 := src.pulls.Load()
+		time.Sleep(2 * time.Second)
+		p2 := src.pulls.Load()
+		select {
+		case <-closed:
+			r.Count("deaf-close", "Close took longer than 15 s (load; not judged)", 1)
+		default:
+			if p2-p1 >= 1000 {
+				c.Violation("close-never-returns", fmt.Sprintf("deaf-close: endless source that ignores its context, batch that never fills, no consumer: Close has been blocked for 17 s while the background goroutines pulled %d further items from the source in the last 2 s", p2-p1), nil)
+			} else {
+				r.Inconclusive("deaf-close: Close blocked but the source is not being pulled")
+			}
+		}
+		src.killed.Store(true)
+		<-closed
+	}
+	if n := src.closed.Load(); n != 1 {
+		c.Violation("source-close", fmt.Sprintf("deaf-close: after Close returned the source had been closed %d times (want exactly 1)", n), nil)
 	}
 }
